@@ -20,6 +20,15 @@ struct ClosureSpec {
 }
 
 #[derive(Deserialize, Debug, Default, Clone)]
+struct HoistSpec {
+    name: String,
+    #[serde(default)]
+    generics: String,
+    params: String,
+    ret: String,
+}
+
+#[derive(Deserialize, Debug, Default, Clone)]
 struct Anchor {
     id: String,
     /// before | after | fn_start | fn_end | loop_start | loop_end
@@ -83,6 +92,10 @@ struct Item {
     /// (provided Iterator methods / adapters that vstd cannot specify; the wrapper's body is exactly the std call)
     #[serde(default)]
     wrap: Vec<String>,
+    /// E9b: closure N (which must capture nothing: enforced by the compiler on the generated item) is emitted as a named
+    /// associated fn generated from the closure's source text and referenced by path at the closure's position
+    #[serde(default)]
+    hoist: BTreeMap<String, HoistSpec>,
     /// exact-text replacements (escape hatch, reported as rule M)
     #[serde(default)]
     manual: Vec<(String, String, String)>,
@@ -218,6 +231,9 @@ struct Ctx<'a> {
     /// E5b: end pointers: alias -> base
     ptr_end: BTreeMap<String, String>,
     tmp_n: usize,
+    /// E9b: (ordinal, body start, body end, lets, spec, body_is_block)
+    hoisted: Vec<(usize, usize, usize, String, HoistSpec, bool)>,
+    in_impl: bool,
     /// E8b side conditions to check against the file: (method, ctor)
     inline_checks: Vec<(String, String)>,
     /// occurrences counters for anchors
@@ -788,6 +804,26 @@ impl<'a, 'ast> Visit<'ast> for Ctx<'a> {
     fn visit_expr_closure(&mut self, c: &'ast syn::ExprClosure) {
         self.closures += 1;
         let ord = self.closures;
+        if let Some(h) = self.item.hoist.get(&ord.to_string()).cloned() {
+            // parameter names from the @hoist header
+            let mut names = vec![];
+            let mut depth = 0i32; let mut cur = String::new();
+            for ch in h.params.chars() {
+                match ch { '(' | '[' | '<' => depth += 1, ')' | ']' | '>' => depth -= 1, _ => {} }
+                if ch == ',' && depth == 0 { names.push(cur.clone()); cur.clear(); } else { cur.push(ch); }
+            }
+            if !cur.trim().is_empty() { names.push(cur); }
+            let names: Vec<String> = names.iter().map(|n| n.split(':').next().unwrap_or("").trim().trim_start_matches("mut ").to_string()).collect();
+            let lets = self.closure_param_lets(&c.inputs, &names);
+            let (cs, ce) = self.src.range(c.span());
+            let (bs, be) = self.src.range(c.body.span());
+            let is_block = matches!(&*c.body, syn::Expr::Block(_));
+            self.visit_expr(&c.body);
+            let path = if self.in_impl { format!("Self::{}", h.name) } else { h.name.clone() };
+            self.add(cs, ce, path, "E9b closure hoisted to a named fn item");
+            self.hoisted.push((ord, bs, be, lets, h, is_block));
+            return;
+        }
         if let Some(spec) = self.item.closures.get(&ord.to_string()).cloned() {
             let (o1, _) = self.src.range(c.or1_token.span());
             let (_, o2) = self.src.range(c.or2_token.span());
@@ -938,7 +974,7 @@ fn extract_fn(file: &syn::File, src: &Src, it: &Item) -> ItemOut {
     out.orig_start_line = src.line_of(ws);
     out.orig_end_line = src.line_of(we);
 
-    let mut cx = Ctx { src, item: it, edits: vec![], seq: 0, loops: vec![], closures: 0, sites: BTreeMap::new(), errors: vec![], anchors_found: vec![], ptr_base: BTreeMap::new(), ptr_elem: BTreeMap::new(), ptr_cursor: BTreeMap::new(), ptr_end: BTreeMap::new(), tmp_n: 0, inline_checks: vec![], anchor_occ: BTreeMap::new(), self_iter_types: vec![] };
+    let mut cx = Ctx { src, item: it, edits: vec![], seq: 0, loops: vec![], closures: 0, sites: BTreeMap::new(), errors: vec![], anchors_found: vec![], ptr_base: BTreeMap::new(), ptr_elem: BTreeMap::new(), ptr_cursor: BTreeMap::new(), ptr_end: BTreeMap::new(), tmp_n: 0, hoisted: vec![], in_impl: false, inline_checks: vec![], anchor_occ: BTreeMap::new(), self_iter_types: vec![] };
 
     // ---- signature, rebuilt from source slices (E0, E2, E10, E11) ----
     let mut sigtxt = String::new();
@@ -952,7 +988,7 @@ fn extract_fn(file: &syn::File, src: &Src, it: &Item) -> ItemOut {
     // inputs: visit for subst
     let (ps, pe) = src.range(sig.paren_token.span.join());
     {
-        let mut sub = Ctx { src, item: it, edits: vec![], seq: 0, loops: vec![], closures: 0, sites: BTreeMap::new(), errors: vec![], anchors_found: vec![], ptr_base: BTreeMap::new(), ptr_elem: BTreeMap::new(), ptr_cursor: BTreeMap::new(), ptr_end: BTreeMap::new(), tmp_n: 0, inline_checks: vec![], anchor_occ: BTreeMap::new(), self_iter_types: vec![] };
+        let mut sub = Ctx { src, item: it, edits: vec![], seq: 0, loops: vec![], closures: 0, sites: BTreeMap::new(), errors: vec![], anchors_found: vec![], ptr_base: BTreeMap::new(), ptr_elem: BTreeMap::new(), ptr_cursor: BTreeMap::new(), ptr_end: BTreeMap::new(), tmp_n: 0, hoisted: vec![], in_impl: false, inline_checks: vec![], anchor_occ: BTreeMap::new(), self_iter_types: vec![] };
         for inp in &sig.inputs { sub.visit_fn_arg(inp); }
         let mut errs = vec![];
         sigtxt.push_str(&norm(&apply_edits(src, ps, pe, sub.edits.clone(), &mut errs)));
@@ -961,7 +997,7 @@ fn extract_fn(file: &syn::File, src: &Src, it: &Item) -> ItemOut {
     }
     if let syn::ReturnType::Type(_, ty) = &sig.output {
         let (ts, te) = src.range(ty.span());
-        let mut sub = Ctx { src, item: it, edits: vec![], seq: 0, loops: vec![], closures: 0, sites: BTreeMap::new(), errors: vec![], anchors_found: vec![], ptr_base: BTreeMap::new(), ptr_elem: BTreeMap::new(), ptr_cursor: BTreeMap::new(), ptr_end: BTreeMap::new(), tmp_n: 0, inline_checks: vec![], anchor_occ: BTreeMap::new(), self_iter_types: vec![] };
+        let mut sub = Ctx { src, item: it, edits: vec![], seq: 0, loops: vec![], closures: 0, sites: BTreeMap::new(), errors: vec![], anchors_found: vec![], ptr_base: BTreeMap::new(), ptr_elem: BTreeMap::new(), ptr_cursor: BTreeMap::new(), ptr_end: BTreeMap::new(), tmp_n: 0, hoisted: vec![], in_impl: false, inline_checks: vec![], anchor_occ: BTreeMap::new(), self_iter_types: vec![] };
         sub.visit_type(ty);
         let mut errs = vec![];
         let mut t = norm(&apply_edits(src, ts, te, sub.edits.clone(), &mut errs));
@@ -987,6 +1023,7 @@ fn extract_fn(file: &syn::File, src: &Src, it: &Item) -> ItemOut {
     sigtxt.push_str("\n/*@SIG@*/\n");
 
     // ---- body ----
+    cx.in_impl = _im.is_some();
     cx.visit_block(block);
     let (bs, be) = src.range(block.span());
     // fn_start / fn_end anchors
@@ -1094,7 +1131,22 @@ fn extract_fn(file: &syn::File, src: &Src, it: &Item) -> ItemOut {
         }
         body = format!("{}{}{}", &body[..p0], norm(&outl), &body[p1 + 3..]);
     }
-    out.text = format!("{sigtxt}{body}");
+    let mut hoisted_text = String::new();
+    for (ord, hs, he, lets, h, is_block) in cx.hoisted.clone() {
+        let mut errs2 = vec![];
+        let inner = apply_edits(src, hs, he, cx.edits.clone(), &mut errs2);
+        let body_txt = if is_block {
+            // insert the lets after the opening brace
+            let t = inner.trim_start();
+            format!("{{ {lets}{}", &t[1..])
+        } else {
+            format!("{{ {lets}{inner} }}")
+        };
+        hoisted_text.push_str(&format!("\n\n    fn {}{}({}) -> {}\n/*@HOIST{}@*/\n{}\n", h.name, h.generics, h.params, h.ret, ord, body_txt));
+        out.edits.push(EditOut { rule: format!("E9b closure {ord} emitted as fn {}", h.name), line: src.line_of(hs), from: norm(&src.text[hs..he]).chars().take(100).collect(), to: h.name.clone() });
+        out.errors.extend(errs2);
+    }
+    out.text = format!("{sigtxt}{body}{hoisted_text}");
     out.loops = cx.loops;
     out.closures = cx.closures;
     out.sites = cx.sites;
@@ -1113,7 +1165,7 @@ fn extract_struct(file: &syn::File, src: &Src, it: &Item) -> ItemOut {
                 out.orig_text = src.text[ws..we].to_string();
                 out.orig_start_line = src.line_of(ws);
                 out.orig_end_line = src.line_of(we);
-                let mut cx = Ctx { src, item: it, edits: vec![], seq: 0, loops: vec![], closures: 0, sites: BTreeMap::new(), errors: vec![], anchors_found: vec![], ptr_base: BTreeMap::new(), ptr_elem: BTreeMap::new(), ptr_cursor: BTreeMap::new(), ptr_end: BTreeMap::new(), tmp_n: 0, inline_checks: vec![], anchor_occ: BTreeMap::new(), self_iter_types: vec![] };
+                let mut cx = Ctx { src, item: it, edits: vec![], seq: 0, loops: vec![], closures: 0, sites: BTreeMap::new(), errors: vec![], anchors_found: vec![], ptr_base: BTreeMap::new(), ptr_elem: BTreeMap::new(), ptr_cursor: BTreeMap::new(), ptr_end: BTreeMap::new(), tmp_n: 0, hoisted: vec![], in_impl: false, inline_checks: vec![], anchor_occ: BTreeMap::new(), self_iter_types: vec![] };
                 cx.visit_fields(&s.fields);
                 let (fs, fe) = src.range(s.fields.span());
                 let mut errs = vec![];
